@@ -137,6 +137,39 @@ def symbolic(labels):
     return frozenset(x for x in labels if x[0] == 'P')
 
 
+_LOCALS = dict()
+_SRC_KEYS = dict()
+
+
+def _local_names(fi):
+    if fi.qual not in _LOCALS or _LOCALS[fi.qual][0] is not fi.node:
+        loc = set()
+        for n in ast.walk(fi.node):
+            if isinstance(n, ast.Name) and isinstance(
+                    n.ctx, (ast.Store, ast.Del)):
+                loc.add(n.id)
+        _LOCALS[fi.qual] = (fi.node, loc - set(fi.params))
+    return _LOCALS[fi.qual][1]
+
+
+def _norm_text(fi, node):
+    """source text of a construct with the function's local variable
+    names replaced by positional placeholders: keys built from it survive
+    the renaming of a local"""
+    loc = _local_names(fi)
+    order = dict()
+    txt = unparse(node)
+    import re
+    def sub(m):
+        w = m.group(0)
+        if w in loc:
+            if w not in order:
+                order[w] = f'_{len(order) + 1}'
+            return order[w]
+        return w
+    return re.sub(r'(?<![\w.])[A-Za-z_]\w*', sub, txt)
+
+
 class Finding(object):
     def __init__(self, fi, site, sink, labels, how, chain=()):
         self.fi = fi
@@ -149,7 +182,7 @@ class Finding(object):
     def key(self):
         src = sorted({f'{lab[0]}@{lab[1]}' for lab in self.labels})
         return (f'{self.fi.qual}:{self.sink}:'
-                f'{unparse(self.site)[:40]}<-{";".join(src)}')
+                f'{_norm_text(self.fi, self.site)[:40]}<-{";".join(src)}')
 
 
 class _SinkList(list):
@@ -499,7 +532,23 @@ class _FnState(object):
     def _src_key(self, node):
         """stable key of a source construct: function and normalised
         text (not a line number); the location is kept aside"""
-        key = f'{self.fi.qual}|{unparse(node)[:60]}'
+        ck = (self.fi.qual, id(node))
+        hit = _SRC_KEYS.get(ck)
+        if hit is not None and hit[0] is node:
+            self.eng.source_locs[hit[1]] = (
+                f'{self.fi.module.relpath}:{getattr(node, "lineno", 0)}')
+            return hit[1]
+        txt = _norm_text(self.fi, node)[:60]
+        # occurrence index among constructs of this function with the
+        # same normalised text (source order)
+        same = [n for n in ast.walk(self.fi.node)
+                if type(n) is type(node)
+                and _norm_text(self.fi, n)[:60] == txt]
+        same.sort(key=lambda n: (getattr(n, 'lineno', 0),
+                                 getattr(n, 'col_offset', 0)))
+        k = next((i for i, n in enumerate(same) if n is node), 0)
+        key = f'{self.fi.qual}|{txt}#{k}'
+        _SRC_KEYS[ck] = (node, key)
         self.eng.source_locs[key] = (
             f'{self.fi.module.relpath}:{getattr(node, "lineno", 0)}')
         return key
